@@ -562,27 +562,39 @@ def splitLines (part : String) (text : String) : List String × String :=
 
 def bufferText (ls : List String) (p : String) (c : Conn) : Conn := { c with cmds := c.cmds ++ ls, part := p }
 
-/-- get_user_data() with data: buffer it, echo CR LF per completed line (telnet); no LPC is called -/
-def userData (w : W) (id : Nat) (telnet : Bool) (text : String) : W :=
+/-- receive_snoop(): `safe_apply (APPLY_RECEIVE_SNOOP, ip->snoop_by->ob)` (fix commit: own recovery point) - the
+    snooper's callback may destruct or disconnect anybody, an error in it stops there.  The scripted receive_snoop()
+    acts on text that carries a CR (raw input and the CR LF echo), not on ordinary output. -/
+def snoopHook (rh : HookFn) (w : W) (id : Nat) : W :=
+  match findConn w id with
+  | none => w
+  | some c =>
+    match c.snoopBy with
+    | none => w
+    | some s => popCtx (rh (emit (pushCtx w) (.tSnoop s)) s .snoop).1
+
+/-- copy_chars(): every CR LF is echoed - add_message (ip->ob, "\r\n"), whose last act is the snoop forwarding - and
+    the record is re-validated afterwards (fix commit): when the snooper removed the user, copy_chars() gives up (-1) -/
+def echoLoop (rh : HookFn) : Nat → W → Nat → Oid → W
+  | 0, w, _, _ => w
+  | n + 1, w, id, ob =>
+    let w1 := snoopHook rh (addOut w ob "|") id
+    if w1.inter ob ≠ some id then w1 else echoLoop rh n w1 id ob
+
+/-- get_user_data() with data.  Console: the line is buffered.  TELNET: copy_chars() (echo per line; -1 = the user is
+    gone, the packet is dropped), then the text is in the buffer and CMD_IN_BUF is set, and LAST (fix commit: it came
+    before the flag and `ip` was used after it) the raw input is shown to the snooper. -/
+def userData (rh : HookFn) (w : W) (id : Nat) (telnet : Bool) (text : String) : W :=
   match findConn w id with
   | none => w
   | some c =>
     let ls := (splitLines c.part text).1.filter (· ≠ "")
-    let w := mapConn w id (bufferText ls (splitLines c.part text).2)
-    if telnet then addOut w c.ob (String.join (ls.map (fun _ => "|"))) else w
-
-/-- get_user_data(), TELNET branch, last step (fix commit: it used to come BEFORE `cmd_in_buf (ip)` / CMD_IN_BUF and
-    `ip` was used after it): the raw input is shown to the snooper - `apply (APPLY_RECEIVE_SNOOP, ip->snoop_by->ob)`,
-    unprotected; the snooper's receive_snoop() may destruct or disconnect the user, or raise (the error leaves
-    process_io()).  The scripted receive_snoop() acts only on text that carries a line end (it is applied for every
-    output of the snooped user too - add_message() - and ignores that). -/
-def snoopInput (rh : HookFn) (w : W) (id : Nat) (text : String) : R :=
-  match findConn w id with
-  | none => (w, false)
-  | some c =>
-    match c.snoopBy with
-    | none => (w, false)
-    | some s => if text.contains '/' then rh (emit w (.tSnoop s)) s .snoop else (w, false)
+    if telnet then
+      let w1 := echoLoop rh ls.length w id c.ob
+      if w1.inter c.ob ≠ some id then w1 else
+      let w2 := mapConn w1 id (bufferText ls (splitLines c.part text).2)
+      if text.contains '/' then snoopHook rh w2 id else w2
+    else mapConn w id (bufferText ls (splitLines c.part text).2)
 
 def connOfClient (w : W) (client : Nat) : Option Conn :=
   ((slots w).find? (fun s => match s with | some c => c.client == client | none => false)).join
@@ -598,7 +610,7 @@ def ioEvent (S : Scripts) (rh : HookFn) (w : W) : IoEv → R
       -- "Validate interactive is still valid": !ip->ob || destructed || ip->ob->interactive != ip
       if w.dead c.ob || w.inter c.ob ≠ some c.id then (w, false) else
       -- after get_user_data: re-validated through the saved object (fix commit), never through ip
-      snoopInput rh (userData w c.id true text) c.id text
+      (userData rh w c.id true text, false)
   | .eof id =>
     -- EVENT_READ, recv() returns 0: get_user_data() calls remove_interactive (ip->ob, 0)
     match findConn w id with
@@ -622,7 +634,7 @@ def ioEvent (S : Scripts) (rh : HookFn) (w : W) : IoEv → R
       if r.2 then (r.1, true) else
       match (slots r.1).headD none with
       | none => (r.1, false)
-      | some c => (userData r.1 c.id false text, false)
+      | some c => (userData rh r.1 c.id false text, false)
 
 def processIoEvents (S : Scripts) (rh : HookFn) : List IoEv → W → R
   | [], w => (w, false)
